@@ -128,6 +128,12 @@ class NumericMixin:
     both = z3.If(c, y.t, x.t)
     return VReal(z3.If(x.nan, y.t, z3.If(y.nan, x.t, both)), z3.And(x.nan, y.nan))
 
+  def np_fmin(self, it, a, k):        # elementwise, NaN-ignoring
+    return self._nanminmax([VTuple([a[0], a[1]])], True)
+
+  def np_fmax(self, it, a, k):
+    return self._nanminmax([VTuple([a[0], a[1]])], False)
+
   def np_minimum(self, it, a, k):
     return self._minmax(a, k, True)
 
